@@ -6,6 +6,9 @@ hooks = subprocess.run(["git", "-C", "/repo", "log", "--format=%H %s"], capture_
 hook_commits = [l.split()[0] for l in hooks if l.split(" ", 1)[1].startswith("verif:")]
 
 CHECKS = {
+ "C13": dict(engine="sinks", design="§5 C13", technique="TLC-enumerated decision table and concurrent-call model (Sinks.tla) + one implementation run per model vector on the real writer.Sink, FileSink and ChannelSink",
+   text="TLC checks the sink decision table (missing format => error, write failure/short write => error, success => exactly the configured format's bytes) and, for concurrent Process calls, that every acknowledged call's bytes are in the output once and contiguous (fails without the mutex); each vector is then run on the real sinks with a recording, deliberately slow writer that flags overlapping entry, 1/4/16 callers, /dev/null, stdout, stderr and /dev/full paths; ChannelSink is run for every ordering of channel-ready, timeout and context-done instants.",
+   note="ChannelSink timing uses logical instants 70 ms apart; latency is asserted only as 'not later than the earlier of timeout and context + slack'."),
  "C08": dict(engine="filesink", design="§5 C08", technique="TLC exhaustive check of FileSink.tla (step level: concurrent writers, Reopen, external rename, pause, Crash in every state) and FsSeq.tla + spec->code replay of every FsSeq transition on a real FileSink + concurrent-writer runs judged by real-time order + SIGKILL at every hook label and random instants",
    text="Model checking of NoLossNoDupInOrder, AckedPrefix (at most the in-flight event beyond the acknowledged prefix, also across Crash), PrunedAreOldestOwn over all interleavings of the bounded step-level model; the API-level model's complete transition graph for 5-8 configurations is replayed in temporary directories with every event a unique self-delimiting token, so loss, duplication, reordering and tearing are visible; a child process is killed at the k-th hit of every file-sink hook and at random instants.",
    note="Trusted: single write(2) <= 200 bytes on O_APPEND is all-or-nothing under SIGKILL (exercised, not proved). Time-triggered rotation judged only where the measured interval is certain."),
@@ -44,6 +47,7 @@ CHECKS = {
    note="Trusted: harness node Reopen counters."),
 }
 ENGINES = [
+ {"name": "sinks", "path": "spec/sinks + harness/sinksrep + lib/fam_sinks.py", "serves_properties": ["C13"], "kind_free_text": "TLA+ decision table + concurrent-call model, vector replay on real sinks"},
  {"name": "filesink", "path": "spec/filesink + harness/fsrep + lib/fam_filesink.py", "serves_properties": ["C08", "C15"], "kind_free_text": "TLA+ models of FileSink (API level and step level with crash), TLC exhaustive, Go replayer, crash child"},
  {"name": "locks", "path": "spec/locks + harness/locks + lib/fam_locks.py", "serves_properties": ["C12"], "kind_free_text": "TLA+ model of Broker.lock / node mutex with re-entrant callbacks, TLC deadlock + liveness, watchdog scenarios on the real Broker"},
  {"name": "gated", "path": "spec/gated + harness/gatedrep + lib/fam_gated.py", "serves_properties": ["C11", "C17"], "kind_free_text": "TLA+ model of gated.Filter, TLC exhaustive + simulation, Go replayer"},
